@@ -89,9 +89,44 @@ func c17Bits(c *Ctx) int {
 				continue
 			}
 			seenLen[len(ob)] = true
+			// bits of one-bit fields that the path to this return has tested (`if a.Voice { return
+			// []byte{0x80 | level} }`): a constant at the place of such a bit is that bit
+			known := map[string]bits.Kind{}
+			for _, g := range core.DominatingGuards(rs.Ret.Block()) {
+				iff, isIf := g.At.Instrs[len(g.At.Instrs)-1].(*ssa.If)
+				if !isIf {
+					continue
+				}
+				cv := mm.CondOf(iff)
+				if len(cv) == 1 && (cv[0].K == bits.In || cv[0].K == bits.Not) {
+					truth := g.Truth
+					if cv[0].K == bits.Not {
+						truth = !truth
+					}
+					k := bits.Zero
+					if truth {
+						k = bits.One
+					}
+					known[fmt.Sprintf("%s.%d", cv[0].Src, cv[0].J)] = k
+				}
+			}
 			for k := range ob {
 				n++
-				checkVec(c, "BITS.L1", fname, fmt.Sprintf("out(%d)[%d]", len(ob), k), p.Position(rs.Ret.Pos()), ob[k], spec[k], "recv.")
+				got := ob[k]
+				if len(known) > 0 {
+					if sp, err := parseSpec(spec[k], "recv."); err == nil && len(sp) == len(got) {
+						got = append(bits.Vec(nil), got...)
+						for i := range got {
+							want := sp[i].b
+							if want.K == bits.In && (got[i].K == bits.Zero || got[i].K == bits.One) && known[fmt.Sprintf("%s.%d", want.Src, want.J)] == got[i].K {
+								if _, tested := known[fmt.Sprintf("%s.%d", want.Src, want.J)]; tested {
+									got[i] = want
+								}
+							}
+						}
+					}
+				}
+				checkVec(c, "BITS.L1", fname, fmt.Sprintf("out(%d)[%d]", len(ob), k), p.Position(rs.Ret.Pos()), got, spec[k], "recv.")
 			}
 		}
 		for l := range sp.out {
